@@ -297,6 +297,11 @@ REBUILDS_COUNTED = {"C05": 28, "C06": 26, "C09": 14, "C16": 5}
 SETTERS_COUNTED = {"C01": 4, "C02": 4, "C04": 1, "C05": 20, "C06": 9, "C07": 3, "C08": 3, "C09": 15, "C28": 4, "C29": 13, "C30": 13, "C34": 1}
 
 
+# C06: lazy values and the collector read their values through `impl StatefulDecode for &mut D` and LazyDataToken::into_value (the eager
+# reader owns its decoder); C01/C02: tokens of every value come from parser/src/dataset/mod.rs
+EXTRA_FILES = {"C06": ["parser/src/stateful/decode.rs", "parser/src/dataset/mod.rs"]}
+
+
 def check_property(chk, pid):
     import json
     files = None
@@ -307,6 +312,8 @@ def check_property(chk, pid):
                 files = p["anchors"]["files"]
     if not files:
         return 0
+    # files the property's behaviour goes through although properties.jsonl does not anchor it there
+    files = list(files) + [f for f in EXTRA_FILES.get(pid, []) if f not in files]
     fx = facts.load("W")
     n = 0
     if COUNTED.get(pid):
@@ -337,6 +344,11 @@ def check(chk, fx, rule, files, floor=None):
         if fx.has_hir(cal):
             callee_params = param_names(fx.hirfn(cal))
         fn = h["path"]
+        # delegation impls (`impl Trait for &T / &mut T / Box<T>`): method m forwards to the inner value's m, not to a sibling method
+        md = re.match(r"^<(?:&(?:'\w+ )?(?:mut )?[A-Z]\w?|alloc::boxed::Box<[A-Z]\w?>) as .*>::(\w+)$", fn)  # blanket impls over a type parameter only
+        if md and H.kind(c) == "mcall" and "self" in H.show(c[4], 4):
+            n += 1
+            chk.expect(c[3] == md.group(1), rule, fn, "delegates-to-the-same-method", md.group(1), c[3], loc=C.fn_loc(h))
         for p in params:
             if p is None or p == "self":
                 continue
